@@ -154,6 +154,18 @@ class IntegratorDiag(Integrator):
         self.diag, self.U = _data.eigs(H0.data, False)
         self.diag = self.diag.reshape((-1, 1))
         self.Uinv = _data.inv(self.U)
+        # A defective (non-diagonalizable) generator has a singular matrix of
+        # eigenvectors: the decomposition does not describe the system.
+        H0_array = H0.full()
+        rebuilt = (
+            self.U.to_array() * self.diag.reshape((1, -1))
+        ) @ self.Uinv.to_array()
+        error = np.abs(rebuilt - H0_array).max()
+        if not error <= 1e-8 * (1 + np.abs(H0_array).max()):
+            raise IntegratorException(
+                "The system cannot be diagonalized (its eigenvectors do not "
+                "span the space): method 'diag' cannot be used for it."
+            )
         self.name = "qutip diagonalized"
 
     def integrate(self, t, copy=True):
